@@ -70,7 +70,7 @@ type c17lookup struct {
 }
 
 var c17lookups = []c17lookup{
-	{"r.MapSS", `"k1"`, true}, {"r.MapSS", `"empty"`, true}, {"r.MapSS", `"absent"`, false}, {"r.MapSS", `kk1`, true}, {"r.MapSS", `kabsent`, false},
+	{"r.MapSS", `""`, true}, {"r.MapSS", `kempty`, true}, {"r.MapSI", `""`, false}, {"r.MapSS", `"k1"`, true}, {"r.MapSS", `"empty"`, true}, {"r.MapSS", `"absent"`, false}, {"r.MapSS", `kk1`, true}, {"r.MapSS", `kabsent`, false},
 	{"r.MapSI", `"zero"`, true}, {"r.MapSI", `"a"`, true}, {"r.MapSI", `"b"`, false},
 	{"r.MapIS", `1`, true}, {"r.MapIS", `0`, true}, {"r.MapIS", `7`, false}, {"r.MapIS", `ix2`, true}, {"r.MapIS", `ix9`, false},
 	{"r.MapNamed", `"nk"`, true}, {"r.MapNamed", `knamed`, true}, {"r.MapNamed", `"zz"`, false},
@@ -79,8 +79,35 @@ var c17lookups = []c17lookup{
 	{"r.NilMap", `"k"`, false}, {"r.IfaceMap", `"k"`, true}, {"r.IfaceMap", `"z"`, false}, {"r.MapAny", `"a"`, true}, {"r.MapAny", `"zz"`, false},
 }
 
+// isset of a variable that an inner scope re-declared with no value (nil literal, value half of a failed two-value lookup,
+// assignment of nil): the innermost declaration is the one that counts, whatever the same name means further out
+var c17shadow = []struct{ src, want string }{
+	{`{{ v := "outer" }}{{ if true }}{{ v := nil }}[{{ isset(v) }}]{{ end }}[{{ isset(v) }}]`, "[false][true]"},
+	{`{{ v := "outer" }}{{ if v, ok := r.MapSS["absent"]; !ok }}[{{ isset(v) }}]{{ end }}[{{ isset(v) }}]`, "[false][true]"},
+	{`{{ v := "outer" }}{{ if true }}{{ v, ok := r.MapSS["absent"] }}[{{ isset(v) }}{{ ok }}]{{ end }}`, "[falsefalse]"},
+	{`{{ if true }}{{ kk1 := nil }}[{{ isset(kk1) }}]{{ end }}[{{ isset(kk1) }}]`, "[false][true]"}, // kk1 is a VarMap variable
+	{`{{ if true }}{{ len := nil }}[{{ isset(len) }}]{{ end }}[{{ isset(len) }}]`, "[false][true]"}, // len is a built-in
+	{`{{ v := "outer" }}{{ range i := ints(0, 1) }}{{ v := nil }}[{{ isset(v) }}]{{ end }}[{{ isset(v) }}]`, "[false][true]"},
+	{`{{ v := "x" }}{{ v = nil }}[{{ isset(v) }}]{{ v = 0 }}[{{ isset(v) }}]`, "[false][true]"},
+}
+
 func c17run(c *fw.Ctx, idx int) {
 	r := c.Rand(idx, "c17")
+	if idx < len(c17shadow) {
+		d := c17shadow[idx]
+		g := &data.Gen{R: r}
+		root := g.Root()
+		c.Begin(idx, map[string]interface{}{"directed": "isset of a name re-declared without a value", "template": d.src})
+		defer c.End()
+		out := jx.Run(map[string]string{"/t.jet": d.src}, "/t.jet", c06vars(root), root, jx.NoEscape)
+		c.Count("directed_shadowing_cases", 1)
+		if out.Failed() || out.Out != d.want {
+			c.Violation(fmt.Sprintf("c17:isset-shadowed-by-nil:%d", idx), "", fmt.Sprintf("%s rendered %s, want %q", d.src, out, d.want))
+			return
+		}
+		c.Distinct(fmt.Sprintf("shadow|%d", idx))
+		return
+	}
 	g := &data.Gen{R: r}
 	root := g.Root()
 	rv := reflect.ValueOf(root)
